@@ -43,7 +43,7 @@ theorem port_rule_some (k : Nat) (up d : Option Nat) (hk : k ≠ 0) :
     · simp [truthyPort, hk, hn]
     · simp [truthyPort, hk, hn]
 
-theorem isSameHost_unfold (p : PoolId) (url : Str) (pu : PUrl) (hs : startsWithSlash url = false) :
+theorem isSameHost_unfold (p : PoolId) (url : Str) (pu : PUrl) (hs : pathOnly url = false) :
     isSameHost p url pu = true ↔
       (schemeOr pu = p.scheme ∧ pu.host.map (fun h => normalizeHost h (schemeOr pu)) = some p.host ∧
         (if (truthyPort p.port && !truthyPort pu.port) = true then portOf (schemeOr pu)
@@ -58,15 +58,15 @@ theorem isSameHost_unfold (p : PoolId) (url : Str) (pu : PUrl) (hs : startsWithS
   rw [Bool.and_eq_true, Bool.and_eq_true, beq_iff_eq, beq_iff_eq, beq_iff_eq, and_assoc]
 
 /-- **`is_same_host` is origin equality** (for ports other than the meaningless `0`): true iff the URL
-is path-only (starts with `/`), or scheme, normalised host and effective port agree with the pool's -/
+is path-only (starts with `/` but not with `//`), or scheme, normalised host and effective port agree with the pool's -/
 theorem isSameHost_iff (p : PoolId) (url : Str) (pu : PUrl) (hp : p.port ≠ some 0) (hu : pu.port ≠ some 0) :
     isSameHost p url pu = true ↔
-      startsWithSlash url = true ∨
+      pathOnly url = true ∨
       (schemeOr pu = p.scheme ∧ pu.host.map (fun h => normalizeHost h (schemeOr pu)) = some p.host ∧
         effPort pu.port (schemeOr pu) = effPort p.port p.scheme) := by
-  by_cases hs : startsWithSlash url = true
+  by_cases hs : pathOnly url = true
   · simp [isSameHost, hs]
-  · have hs' : startsWithSlash url = false := by simpa using hs
+  · have hs' : pathOnly url = false := by simpa using hs
     rw [isSameHost_unfold p url pu hs', hs']
     simp only [Bool.false_eq_true, false_or]
     constructor
@@ -127,7 +127,7 @@ theorem mkPool_origin (m : Mgr) (u : PUrl) :
 /-- a pool made for URL `ua` judges URL `ub` "same host" only if both name the same origin -/
 theorem isSameHost_pm {m : Mgr} {ua ub : PUrl} {conn : Pool} {url : Str}
     (h : pmConnectionFromHost m ua.host ua.port ua.scheme = .ok conn)
-    (hs : startsWithSlash url = false) (hsame : isSameHost conn.id url ub = true) :
+    (hs : pathOnly url = false) (hsame : isSameHost conn.id url ub = true) :
     urlOrigin ub = urlOrigin ua := by
   obtain ⟨hc, hsch, hport, _⟩ := pmConnectionFromHost_ok h
   subst hc
